@@ -103,7 +103,9 @@ def load_stl_binary(file_obj):
     # of the file doesn't match the header, the loaded version is almost
     # certainly going to be garbage.
     len_data = data_end - data_start
-    len_expected = header["face_count"] * _stl_dtype.itemsize
+    # convert to a Python int first: the count is a uint32 and the
+    # multiplication would wrap around for a corrupt count
+    len_expected = int(header["face_count"][0]) * _stl_dtype.itemsize
 
     # this check is to see if this really is a binary STL file.
     # if we don't do this and try to load a file that isn't structured properly
@@ -122,7 +124,7 @@ def load_stl_binary(file_obj):
 
     # all of our vertices will be loaded in order
     # so faces are just sequential indices reshaped.
-    faces = np.arange(header["face_count"][0] * 3).reshape((-1, 3))
+    faces = np.arange(len(blob) * 3).reshape((-1, 3))
 
     # there are two bytes per triangle saved for anything
     # which is sometimes used for face color
